@@ -10,7 +10,7 @@
    exact rational operations:
        cos = (1 - t^2) / (1 + t^2),  sin = 2 t / (1 + t^2),
        atan2 y x = the angle with t = y / (|(x,y)| + x),
-       angle + angle: t = (t1 + t2) / (1 - t1 t2).
+       angle + angle: t = (t1 + t2) / (1 - t1 t2)  (similarly - and negation).
    [Deg t] is the same angle given in degrees (radians (Deg t) = Ang t);
    fov * pi / 360 for fov = Deg t is the half angle, whose tangent is t.
    Anything else is [Bad], which is equal to nothing.
@@ -58,6 +58,12 @@ Definition qa_add (a b : qa) : qa :=
   | Ang s, Ang t => if Qeq_bool (1 - s * t) 0 then Bad else Ang (Qred ((s + t) / (1 - s * t)))
   | _, _ => Bad
   end.
+Definition qa_sub (a b : qa) : qa :=
+  match a, b with
+  | Num x, Num y => Num (x - y)
+  | Ang s, Ang t => if Qeq_bool (1 + s * t) 0 then Bad else Ang (Qred ((s - t) / (1 + s * t)))
+  | _, _ => Bad
+  end.
 Definition qa_mul (a b : qa) : qa :=
   match a, b with
   | Num x, Num y => Num (x * y)
@@ -80,8 +86,8 @@ Definition qa_atan2 (a b : qa) : qa :=
 
 #[export] Instance QAops : ops qa := {|
   gofZ := fun z => Num (inject_Z z);
-  gadd := qa_add; gmul := qa_mul; gsub := num2 Qminus; gdiv := qa_div;
-  gopp := fun a => match a with Num x => Num (- x) | _ => Bad end;
+  gadd := qa_add; gmul := qa_mul; gsub := qa_sub; gdiv := qa_div;
+  gopp := fun a => match a with Num x => Num (- x) | Ang t => Ang (- t) | _ => Bad end;
   gsqrt := fun a => match a with Num x => Num (Qsqrt x) | _ => Bad end;
   gcos := fun a => match a with Ang t => Num ((1 - t * t) / (1 + t * t)) | _ => Bad end;
   gsin := fun a => match a with Ang t => Num ((2 * t) / (1 + t * t)) | _ => Bad end;
